@@ -2,59 +2,53 @@ import NomtModel.Store.WalkerGExample
 /-!
 # C13 — a commit worker's walker (parent page) over page sets with reconstructed pages on the way
 
-`T13_walker_child_roots_partial` with `G.PSOK` (pages on the way of ANY origin) in place of `PSOK`; narrowed to the one guard
-`G.GUARD` (see `Props/C02_WalkReconUpdate.lean`).
+`T13_walker_child_roots_partial` with `G.PSOK` (pages on the way of ANY origin, consistent leaf counters) in place of `PSOK`;
+no panic site is left (see `Props/C02_WalkReconUpdate.lean`).
 -/
 namespace Nomt.C13
 open Nomt Nomt.Walker Nomt.TriePos
 
 variable {Node VH : Type} [DecidableEq Node] [DecidableEq VH] (H : Hasher Node VH)
 
-/-- **T13_walker_child_roots over reconstructed pages (narrowed to one guard)**: a walker with parent page `P0` over a page set
-whose pages on the way may be reconstructed ones: EITHER it never panics, concludes with `Output::ChildPageRoots`, every
-delivered `(position, node)` sits on the bottom layer of `P0` and is `nodeAt S'` there, and every page handed out holds `nodeAt S'`
-at its meaningful slots — this discharges the assumption of `T13_6_root_independent_of_workers` for workers that enter elided
-sub-tries — OR the run / `conclude` stops at `G.GUARD`. -/
-theorem T13_walker_child_roots_reconstructed_partial (hs : H.Sound) (ps : PageSet Node) (root : Node) (P0 : PageId)
+/-- **T13_walker_child_roots over reconstructed pages**: a walker with parent page `P0` over a page set whose pages on the
+way may be reconstructed ones (consistent counters, `G.PSOK`): it never panics — the counter guard of
+`handle_elision_threshold` included —, concludes with `Output::ChildPageRoots`, every delivered `(position, node)` sits on the
+bottom layer of `P0` and is `nodeAt S'` there, and every page handed out holds `nodeAt S'` at its meaningful slots — this
+discharges the assumption of `T13_6_root_independent_of_workers` for workers that enter elided sub-tries. -/
+theorem T13_walker_child_roots_reconstructed (hs : H.Sound) (ps : PageSet Node) (root : Node) (P0 : PageId)
     {S S' : List (Key × VH)} (hS : KeysOK S) (hS' : KeysOK S') {steps : List (Step VH)} (hso : ScriptOK S S' steps)
     (hps : G.PSOK ps steps) (hrep : Represents H ps root S) (hscope : InScope (some P0) steps) (inhibit : Bool) :
-    (∃ w' roots pages, (Walker.startP root (some P0) inhibit).runM H ps steps = .ok w' ∧
+    ∃ w' roots pages, (Walker.startP root (some P0) inhibit).runM H ps steps = .ok w' ∧
       w'.conclude H = .ok (.childPageRoots roots pages) ∧
       (∀ e ∈ roots, e.2 = specNode H S' e.1.path ∧ e.1.path.length = 6 * (P0.length + 1)) ∧
       ∀ o ∈ pages, ∃ P pg d b, o = .updated P pg d b ∧ pg.nodes.length = 126 ∧
         ∀ q, q ≠ [] → q.length ≤ 256 → specPage q = P → MatR ps steps q → Mean S' q →
-          pg.nodes.getD (specIndex q) H.term = specNode H S' q) ∨
-    (Walker.startP root (some P0) inhibit).runM H ps steps = .panic G.GUARD ∨
-    (∃ w', (Walker.startP root (some P0) inhibit).runM H ps steps = .ok w' ∧ w'.conclude H = .panic G.GUARD) := by
+          pg.nodes.getD (specIndex q) H.term = specNode H S' q := by
   have hrepR := rep_matR H ps hS hso hrep
   have hDp : PathsIn (MatR ps steps) steps := by
     intro s hs' x hx hne
     have := G.pathsIn_of_psok ps hps s hs' x hx hne
     exact ⟨Or.inl this.1, Or.inl this.2⟩
-  rcases G.runInv_run H ps hs hS hS' hrepR (Or.inl (Or.inl rfl)) steps [] _ _
+  have hnd := G.final_log_nodup H ps hs (some P0) hS hS' hso hrepR hDp
+  obtain ⟨w', hw', hinv⟩ := G.runInv_run H ps hs hS hS' hrepR (Or.inl (Or.inl rfl)) steps [] _ _
     (by simpa using hso) (by simpa using hps) (by simpa using hDp) (by simpa using hscope)
-    (G.runInv_start H ps _ (some P0) root S S' steps inhibit) with ⟨w', hw', hinv⟩ | hp
-  · simp only [List.nil_append] at hinv
-    rcases G.conclude_children_spec H ps hs hS hS' hso hrepR hinv with ⟨roots, pages, hc, hr, hpg⟩ | hpc
-    · refine Or.inl ⟨w', roots, pages, hw', hc, hr, ?_⟩
-      intro o ho
-      obtain ⟨P, pg, d, b, e, hl, hm, _⟩ := hpg o ho
-      exact ⟨P, pg, d, b, e, hl, hm⟩
-    · exact Or.inr (Or.inr ⟨w', hw', hpc⟩)
-  · exact Or.inr (Or.inl hp)
+    (G.runInv_start H ps _ (some P0) root S S' steps inhibit) _ hnd (tw_compactUp_log_prefix H _ _ none)
+  simp only [List.nil_append] at hinv
+  obtain ⟨roots, pages, hc, hr, hpg⟩ := G.conclude_children_spec H ps hs hS hS' hso hrepR hinv hnd
+  refine ⟨w', roots, pages, hw', hc, hr, ?_⟩
+  intro o ho
+  obtain ⟨P, pg, d, b, e, hl, hm, _⟩ := hpg o ho
+  exact ⟨P, pg, d, b, e, hl, hm⟩
 
 /-- non-vacuity: the two-page page set whose page `[0]` is a RECONSTRUCTED page with real counters
-(`Store/WalkerGExample.lean`), parent page ROOT; the run takes the first alternative (`Ex2.run2r_ok`, kernel evaluation) -/
-example : (∃ w' roots pages, (Walker.startP Ex2.root2 (some []) false).runM TH Ex2.ps2r Ex2.steps2 = .ok w' ∧
+(`Store/WalkerGExample.lean`), parent page ROOT (`Ex2.run2r_ok`: the kernel evaluation of the same run) -/
+example : ∃ w' roots pages, (Walker.startP Ex2.root2 (some []) false).runM TH Ex2.ps2r Ex2.steps2 = .ok w' ∧
       w'.conclude TH = .ok (.childPageRoots roots pages) ∧
       (∀ e ∈ roots, e.2 = specNode TH Ex2.S2 e.1.path ∧ e.1.path.length = 6 * (([] : PageId).length + 1)) ∧
       ∀ o ∈ pages, ∃ P pg d b, o = .updated P pg d b ∧ pg.nodes.length = 126 ∧
         ∀ q, q ≠ [] → q.length ≤ 256 → specPage q = P → MatR Ex2.ps2r Ex2.steps2 q → Mean Ex2.S2 q →
-          pg.nodes.getD (specIndex q) TH.term = specNode TH Ex2.S2 q) ∨
-    (Walker.startP Ex2.root2 (some []) false).runM TH Ex2.ps2r Ex2.steps2 = .panic G.GUARD ∨
-    (∃ w', (Walker.startP Ex2.root2 (some []) false).runM TH Ex2.ps2r Ex2.steps2 = .ok w' ∧
-      w'.conclude TH = .panic G.GUARD) :=
-  T13_walker_child_roots_reconstructed_partial TH TH_sound Ex2.ps2r Ex2.root2 [] Ex2.keys2 Ex2.keys2 Ex2.script2
+          pg.nodes.getD (specIndex q) TH.term = specNode TH Ex2.S2 q :=
+  T13_walker_child_roots_reconstructed TH TH_sound Ex2.ps2r Ex2.root2 [] Ex2.keys2 Ex2.keys2 Ex2.script2
     Ex2.psok2r Ex2.rep2r Ex2.scope2 false
 
 end Nomt.C13
